@@ -1,8 +1,41 @@
 (* C07 — Server: cancellation hits only its target; ids reserved only while in flight.
-   This file only restates the property theorems; proofs are in srv/SrvBasics.v and srv/SrvC07.v. *)
+   This file only restates the property theorems; proofs are in srv/SrvBasics.v, srv/SrvC07.v and srv/SrvC07b.v.
+
+   GAP LEFT TO THE HARNESS (not a theorem of this file).  The property names three causes for the cancellation of the
+   context a handler receives: (1) CancelRequest for the id of that very in-flight call, (2) the server stops,
+   (3) ITS BASE CONTEXT ENDS.  The base context is the value returned by ServerOptions.NewContext for that request
+   (server.go: setContext builds t.ctx = WithValue(s.newctx(), ...), and for a call WithCancel on top of it, whose
+   cancel function is what s.used[id] stores).  srv/SrvModel.v has no base context: there is no label for "the
+   context returned by NewContext for task k is cancelled / reaches its deadline", t_cancelled is only ever set by
+   cancel_task, i.e. by the stored cancel function of a CALL.  Consequently the theorems below prove the clause
+   "cancelled ONLY by (1), (2) [or the post-reply cancel of its own delivery]" for servers whose NewContext returns a
+   context that never ends (the default, context.Background), and say nothing about:
+     a. cause (3) itself: when the base context of request k ends, the context seen by handler k is cancelled, with
+        the base context's error (context.Canceled or context.DeadlineExceeded), and sem.Acquire of a request still
+        waiting for a slot fails with that error: a call is then answered with that error (code Cancelled or
+        DeadlineExceeded; the model only ever produces cancel_err = Cancelled / "context canceled"), its handler never
+        runs; a notification whose Acquire fails still signals the barrier (nbar.Done);
+     b. notifications: in Go a notification has a context too (derived from its base context without a stored cancel
+        function), so it CAN be cancelled by cause (3) and only by it; the model-level fact notes_never_cancelled
+        (srv/SrvC03.v, used for C01 notification_once) is an artefact of the omission;
+     c. non-interference of cause (3): the end of the base context of request k must not cancel the context of any
+        request whose base context is a different, still live context, and must not touch the reservation table
+        (the id stays reserved until the reply is delivered; a second request with that id is still a duplicate);
+        with a SHARED base context (NewContext returning the same context for all requests) its end cancels every
+        in-flight request and nothing else changes (no Stop, the server keeps serving new requests, whose contexts
+        are born cancelled).
+   These are checked by the concurrency harness only (harness/conc, racing scenarios): a server configured with a
+   NewContext that hands out per-request cancellable contexts (and one shared context), the harness cancelling /
+   expiring a chosen base context at a scheduling point while other requests are parked before the semaphore, queued
+   in it, inside their handler, or finished but not yet delivered, with monitors that compare for every handler the
+   observed ctx.Err() at its gate with the set of causes that occurred for that request (own CancelRequest, Stop,
+   own base context) and flag a cancellation with no cause or a missing one.  Closing the gap in Coq needs a model
+   change (a label LBaseCtxEnd k / a shared variant, cancelling tasks with t_hasctx whether call or notification, a
+   queued waiter leaving the queue with the base error) and a fifth disjunct in c07_cancel_targets; SrvModel.v is
+   frozen (tied to the Go code by the differential harness), so this was not done here. *)
 From Coq Require Import List NArith ZArith Bool Arith.
 From RecordUpdate Require Import RecordUpdate.
-From JV Require Import Bytes Msg SrvModel SrvLemmas SrvBasics SrvC07.
+From JV Require Import Bytes Msg SrvModel SrvLemmas SrvBasics SrvC07 SrvC07b.
 From JV Require SrvNoCrash.
 Import ListNotations.
 
@@ -87,3 +120,54 @@ Theorem c07_reusable_after_reply : forall s u s1 os t ids m,
   pre_err s1 ids m = None.
 Proof. exact SrvC07.c07_reusable_after_reply. Qed.
 Print Assumptions c07_reusable_after_reply.
+
+(* 6. free iff no unfinished holder (running servers; a stopped one reserves nothing: c07_reserved_inflight).
+      no_holder s id = no context-carrying task with that id belongs to a unit that has not finished. *)
+Theorem c07_free_iff_no_holder : forall c s id, reach c s -> running s = true -> id <> [] ->
+  (assoc id (used s) = None <->
+   forall k t un, nth_error (tasks s) k = Some t -> t_id t = id -> t_hasctx t = true ->
+     nth_error (units s) (t_unit t) = Some un -> u_st un = UFinished).
+Proof. exact SrvC07b.c07_free_iff_no_holder. Qed.
+Print Assumptions c07_free_iff_no_holder.
+
+(* hence the next request with that id is accepted: in the window of the dispatcher's nextRequest a member whose id
+   has no unfinished holder and is not repeated within its message is not rejected as a duplicate, and if it is valid
+   with a known method it gets a context and is parked before the semaphore.  (c07_free_id_accepted: the same for the
+   dequeue performed in any intermediate state of any window.) *)
+Theorem c07_free_id_accepted_step : forall c s s' os b ms q i m, reach c s -> running s = true ->
+  step s LRelNext = Some (s', os) -> inq s = (b, ms) :: q ->
+  nth_error ms i = Some m -> fix_id (j_id m) <> [] -> no_holder s (fix_id (j_id m)) ->
+  count_bytes (fix_id (j_id m)) (msg_ids ms) <= 1 -> j_err m = None ->
+  exists t, nth_error (tasks s') (length (tasks s) + i) = Some t /\ t_id t = fix_id (j_id m) /\
+    t_pre t <> Some err_dup /\
+    (j_method m <> [] -> forall bb, assign_method s (j_method m) = Some bb ->
+       t_pre t = None /\ t_hasctx t = true /\ t_st t = TAtAcquire).
+Proof. exact SrvC07b.c07_free_id_accepted_step. Qed.
+Print Assumptions c07_free_id_accepted_step.
+
+Theorem c07_free_id_accepted : forall c s b ms q i m, reachf c s -> running s = true -> inq s = (b, ms) :: q ->
+  nth_error ms i = Some m -> fix_id (j_id m) <> [] -> no_holder s (fix_id (j_id m)) ->
+  count_bytes (fix_id (j_id m)) (msg_ids ms) <= 1 -> j_err m = None ->
+  exists t, nth_error (tasks (dequeue s)) (length (tasks s) + i) = Some t /\ t_id t = fix_id (j_id m) /\
+    t_pre t <> Some err_dup /\
+    (j_method m <> [] -> forall bb, assign_method s (j_method m) = Some bb ->
+       t_pre t = None /\ t_hasctx t = true /\ t_st t = TAtAcquire).
+Proof. exact SrvC07b.c07_free_id_accepted. Qed.
+Print Assumptions c07_free_id_accepted.
+
+(* once the reply of a unit has been sent (the whole deliver window, on the transition system), the ids of its
+   context-carrying calls are free again, whatever their outcome, and nothing unfinished holds them *)
+Theorem c07_reply_frees_id : forall c s u s' os t, reach c s -> step s (LRelDeliver u) = Some (s', os) ->
+  In t (unit_tasks s u) -> t_hasctx t = true -> t_id t <> [] ->
+  assoc (t_id t) (used s') = None /\ (running s' = true -> no_holder s' (t_id t)).
+Proof. exact SrvC07b.c07_reply_frees_id. Qed.
+Print Assumptions c07_reply_frees_id.
+
+(* 7. a duplicate's error reply leaves the owner alone: the delivery of unit u does not cancel the context of a task
+      of another unit and does not touch its reservation *)
+Theorem c07_deliver_leaves_others : forall c s u s' os k t, reach c s -> step s (LRelDeliver u) = Some (s', os) ->
+  nth_error (tasks s) k = Some t -> t_unit t <> u ->
+  exists t', nth_error (tasks s') k = Some t' /\ t_cancelled t' = t_cancelled t /\
+    (assoc (t_id t) (used s) = Some k -> assoc (t_id t) (used s') = Some k).
+Proof. exact SrvC07b.c07_deliver_leaves_others. Qed.
+Print Assumptions c07_deliver_leaves_others.
